@@ -210,6 +210,10 @@ def run_chunk(common, ch, cfgs_of, maxlen, label="engine", sanitize=False):
     if st and not st[0].startswith("SELFTEST ok"):
         K.error = "input classes of the tree under test fail the harness self-test:" + st[0][12:400]
         return K
+    vis = vlib.visible_internal_helpers(p.stdout)
+    if vis:
+        K.error = "an implementation helper of namespace internal is visible to the control (enable_control is true): " + vis[0][:300]
+        return K
     if "unknown" in p.stdout:
         bad = [l for l in p.stdout.split("\n") if "unknown" in l][:3]
         K.error = "untranslatable rule in table dump: " + " ;; ".join(bad)
